@@ -34,6 +34,9 @@ func pypiContains(constraints []string, version string) (bool, error) {
 // constraintsIncludePrerelease checks if any constraint explicitly includes prerelease versions
 func constraintsIncludePrerelease(constraints []string) bool {
 	for _, constraint := range constraints {
+		// White space inside a constraint is not significant in VERS
+		constraint = strings.Join(strings.Fields(constraint), "")
+
 		// If constraint contains prerelease markers, then prereleases are explicitly allowed
 		if containsPrereleaseMarkers(constraint) {
 			return true
